@@ -186,9 +186,9 @@ CHECKS = {
          "round(), %.Nf) reproduces the library's pipelines digit for digit and is itself validated against CPython on every run. Compared: integer "
          "-> Value -> integer on 0..20000, 10^k+-1, 2^k+-1, the top of the range and random amounts (50k / thorough 300k), 8-decimal strings -> "
          "satoshi, library formatting parsed back, and formatting in every denominator symbol on every network against the exact decimal "
-         "specification; amount strings with every denominator symbol of the table are read back. Found and fixed: F46 (the da symbol). Listed: F14 (display in non-unit denominators is off for some large amounts; float design)."),
+         "specification; amount strings with every denominator symbol of the table are read back. Found and fixed: F46 (the da symbol), F51 (from_satoshi with a denominator) and F52 (strings with a denominator symbol) - both off by one satoshi for large amounts; after the repairs both pipelines are the ones of the two theorems, and they are run over the whole supply range in every unit. Listed: F14 (display in non-unit denominators is off for some large amounts; float design)."),
    design_ref='DESIGN.md §5 C17',
-   note=COMMON_NOTE + "The standard model of floating-point arithmetic (and, for the text direction, the half-ulp bound and idempotence of rounding) are hypotheses of the theorems (not proved for the executable roundF64, which is validated against CPython instead). Strings with a denominator symbol other than the coin unit (one more inexact multiplication) have no theorem: correspondence only. "
+   note=COMMON_NOTE + "The standard model of floating-point arithmetic (and, for the text direction, the half-ulp bound and idempotence of rounding) are hypotheses of the theorems (not proved for the executable roundF64, which is validated against CPython instead). Strings with a denominator symbol other than the coin unit are, since the repair of F52, the same pipeline (exact decimal product, rounded once); that float(Decimal) is correctly rounded is CPython's documented behaviour, checked by the run over the whole supply range in every unit. "
         "Where more than 8 decimals would be needed (denominators above the coin unit) any correct rounding of the last shown digit is accepted. Non-negativity of output and fee amounts is checked under C07."),
  'C16': dict(
    technique='Lean 4 theorems (slot/taint invariant over all call histories: only slots cleared by public() can hold secret-derived data) + per-attribute taint measurement and every-encoding scan of all public views of real objects',
